@@ -1,0 +1,13 @@
+//go:build verif
+
+package wtxmgr
+
+import "github.com/lightningnetwork/lnd/clock"
+
+// VerifSetClock replaces the clock the store uses to decide whether output
+// leases have expired. It only exists in builds with the `verif` tag, where
+// the property checks under /verif drive lease expiry with a test clock
+// instead of waiting in real time.
+func (s *Store) VerifSetClock(c clock.Clock) {
+	s.clock = c
+}
